@@ -119,6 +119,8 @@ impl<R: io::Read> Reader<R> {
                 .delimiter(b'\t')
                 .has_headers(false)
                 .comment(Some(b'#'))
+                // the number of columns is checked per record (see `Records::next`)
+                .flexible(true)
                 .from_reader(reader),
             gff_type: fileformat,
         }
@@ -134,7 +136,7 @@ impl<R: io::Read> Reader<R> {
         );
         let attribute_re = Regex::new(&r).unwrap();
         Records {
-            inner: self.inner.deserialize(),
+            inner: self.inner.records(),
             attribute_re,
             value_delim: vdelim as char,
         }
@@ -276,7 +278,7 @@ impl Serialize for Phase {
 
 /// An iterator over the records of a GFF file.
 pub struct Records<'a, R: io::Read> {
-    inner: csv::DeserializeRecordsIter<'a, R, GffRecordInner>,
+    inner: csv::StringRecordsIter<'a, R>,
     attribute_re: Regex,
     value_delim: char,
 }
@@ -286,7 +288,18 @@ impl<'a, R: io::Read> Iterator for Records<'a, R> {
 
     fn next(&mut self) -> Option<csv::Result<Record>> {
         self.inner.next().map(|res| {
-            res.map(
+            res.and_then(|row| {
+                // A GFF record has exactly nine columns; anything else is an error for this
+                // record only.
+                if row.len() != 9 {
+                    return Err(csv::Error::from(io::Error::new(
+                        io::ErrorKind::InvalidData,
+                        format!("GFF records have 9 columns, found {}", row.len()),
+                    )));
+                }
+                row.deserialize::<GffRecordInner>(None)
+            })
+            .map(
                 |(
                     seqname,
                     source,
